@@ -346,6 +346,7 @@ fn enumerated_cases(seed: u64, flows: usize) -> Vec<Case> {
 
 fn main() {
 	install_recording_signer();
+	netsim::rec::tolerate_monitor_roundtrip_tripwire();
 	let mut c = Check::new("C10", "fault_enumeration");
 	c.assume("the restarted node gets, per channel, the durable monitor image (every completed update) or the latest written one, and any earlier-written ChannelManager; monitors and manager are synced to the chain tip separately before use, as documented");
 	c.assume("crash points are the points between two harness operations (each operation performs at most a few durable writes); crashes inside one library call are not generated");
